@@ -679,7 +679,7 @@ def params(tier):
     if tier == 'quick':
         return {'examples': 500, 'wall': 100, 'case_timeout': 60}
 
-    return {'examples': 5000, 'wall': 600, 'case_timeout': 120}
+    return {'examples': 12000, 'wall': 600, 'case_timeout': 120}
 
 
 def floors(tier):
